@@ -55,7 +55,7 @@ func goid() int {
 
 type gateSched struct {
 	mu      sync.Mutex
-	ids     map[int]int      // goroutine id -> index
+	ids     map[int]int // goroutine id -> index
 	waiting map[int]chan struct{}
 	at      map[int]string   // gate the goroutine is blocked at
 	seen    map[int][]string // gates passed
